@@ -37,6 +37,67 @@ def _faithful_adapter_memo(c: Ctx, name: str) -> bool:
     return bool(stores) and all(isinstance(v, ast.Call) and call_name(v) == 'TypeAdapter' and len(v.args) == 1 and not v.keywords and U(v.args[0]) == U(t.slice) for t, v in stores)
 
 
+def _faithful_pair_memo(c: Ctx, name: str) -> bool:
+    """A module-level dict written everywhere only by `D[k] = (k, A)` with A = TypeAdapter(k) (directly or a local bound once to it): an entry pairs a type object with the
+    adapter compiled for that very object.  A reader that checks `entry[0] is t` before using `entry[1]` gets TypeAdapter(t), whatever the key is."""
+    stores = []
+    for uu in c.prog.units.values():
+        defs_ = q.single_defs(uu)
+        for n in own_nodes(uu.node):
+            if isinstance(n, ast.Assign):
+                for t in n.targets:
+                    if isinstance(t, ast.Subscript) and isinstance(t.value, ast.Name) and t.value.id == name:
+                        stores.append((uu, defs_, n.value))
+            elif isinstance(n, (ast.AugAssign, ast.Delete)) and any(isinstance(x, ast.Name) and x.id == name for x in ast.walk(n)):
+                return False
+            elif isinstance(n, ast.Call) and isinstance(n.func, ast.Attribute) and isinstance(n.func.value, ast.Name) and n.func.value.id == name and n.func.attr in ('update', 'setdefault', '__setitem__'):
+                return False
+    if not stores:
+        return False
+    for uu, defs_, v in stores:
+        if not (isinstance(v, ast.Tuple) and len(v.elts) == 2):
+            return False
+        a = v.elts[1]
+        if isinstance(a, ast.Name) and a.id in defs_:
+            a = defs_[a.id]
+        if not (isinstance(a, ast.Call) and call_name(a) == 'TypeAdapter' and len(a.args) == 1 and not a.keywords and U(a.args[0]) == U(v.elts[0])):
+            return False
+    return True
+
+
+def _adapter_factory_param(c: Ctx, fu: Unit) -> str | None:
+    """A library function every return of which hands back an adapter compiled for its parameter p: `TypeAdapter(p)`, a local bound once to that, or `e[1]` of an entry `e` of a
+    faithful pair memo under a test `e[0] is p` that dominates the return.  Returns p, or None."""
+    ps = fu.params()
+    if len(ps) != 1:
+        return None
+    p_ = ps[0]
+    if any(isinstance(n, ast.Name) and n.id == p_ and isinstance(n.ctx, ast.Store) for n in own_nodes(fu.node)):
+        return None
+    g = c.cfg(fu)
+    defs_ = q.single_defs(fu)
+    rets = [n for n in g.live_nodes() if n.kind == 'return']
+    if not rets:
+        return None
+    for rn in rets:
+        v = rn.ast.value
+        if isinstance(v, ast.Name) and v.id in defs_:
+            v = defs_[v.id]
+        if isinstance(v, ast.Call) and call_name(v) == 'TypeAdapter' and len(v.args) == 1 and not v.keywords and U(v.args[0]) == p_:
+            continue
+        if isinstance(v, ast.Subscript) and isinstance(v.slice, ast.Constant) and v.slice.value == 1 and isinstance(v.value, ast.Name):
+            e = v.value.id
+            src = defs_.get(e)
+            memo = src.func.value.id if isinstance(src, ast.Call) and isinstance(src.func, ast.Attribute) and src.func.attr == 'get' and isinstance(src.func.value, ast.Name) else \
+                src.value.id if isinstance(src, ast.Subscript) and isinstance(src.value, ast.Name) else None
+            atom = f'{e}[0] is {p_}'
+            facts = Facts(lambda a: a == atom, cg=c.cg, unit=fu)
+            if memo is not None and _faithful_pair_memo(c, memo) and q.guard_search(g, rn, atom, facts) is None:
+                continue
+        return None
+    return p_
+
+
 def _adapter_types(c: Ctx, u: Unit, name: str, seen: frozenset = frozenset()) -> set[str]:
     """The type expressions the adapter held in local *name* can have been compiled for ('?' when a definition is not understood)."""
     if name in seen:
@@ -47,6 +108,8 @@ def _adapter_types(c: Ctx, u: Unit, name: str, seen: frozenset = frozenset()) ->
         if isinstance(n, ast.Assign):
             if any(isinstance(t, ast.Name) and t.id == name for t in n.targets):
                 defs.append(n.value)
+        elif isinstance(n, ast.AnnAssign) and n.value is not None and isinstance(n.target, ast.Name) and n.target.id == name:
+            defs.append(n.value)
     if not defs:
         return {'?'}
     for v in defs:
@@ -60,6 +123,24 @@ def _adapter_types(c: Ctx, u: Unit, name: str, seen: frozenset = frozenset()) ->
             out.add(U(v.args[0]))  # the memo's key is the type
         elif isinstance(v, ast.Subscript) and isinstance(v.value, ast.Name) and _faithful_adapter_memo(c, v.value.id):
             out.add(U(v.slice))
+        elif isinstance(v, ast.Subscript) and isinstance(v.slice, ast.Constant) and v.slice.value == 1 and isinstance(v.value, ast.Name):
+            # `entry[1]` of an entry of a faithful pair memo, taken under `entry[0] is T`: the adapter compiled for T
+            e_ = v.value.id
+            srcs = [n.value for n in own_nodes(u.node) if isinstance(n, ast.Assign) and len(n.targets) == 1 and isinstance(n.targets[0], ast.Name) and n.targets[0].id == e_]
+            memo = None
+            if len(srcs) == 1:
+                s0 = srcs[0]
+                memo = s0.func.value.id if isinstance(s0, ast.Call) and isinstance(s0.func, ast.Attribute) and s0.func.attr == 'get' and isinstance(s0.func.value, ast.Name) else \
+                    s0.value.id if isinstance(s0, ast.Subscript) and isinstance(s0.value, ast.Name) else None
+            asg = next((n for n in own_nodes(u.node) if isinstance(n, ast.Assign) and n.value is v), None)
+            ty = None
+            if memo is not None and _faithful_pair_memo(c, memo) and asg is not None:
+                for anc in q.ancestors_of(asg):
+                    if isinstance(anc, ast.If) and q.lexically_in(asg, anc, 'body'):
+                        for cj in (anc.test.values if isinstance(anc.test, ast.BoolOp) and isinstance(anc.test.op, ast.And) else [anc.test]):
+                            if isinstance(cj, ast.Compare) and len(cj.ops) == 1 and isinstance(cj.ops[0], ast.Is) and U(cj.left) == f'{e_}[0]':
+                                ty = U(cj.comparators[0])
+            out.add(ty or '?')
         else:
             out.add('?')
     return out
@@ -90,6 +171,27 @@ def c12_1(c: Ctx) -> None:
     facts = Facts(lambda a: a in tracked, cg=c.cg, unit=u, ignore_writes={'status', 'result', 'error', 'started_at', 'completed_at'})
     raw_guard = f'{fwd} or {self_}.result_type is None or {raw} is None'
     n_valid = 0
+
+    def valid_call(dv: ast.AST) -> bool:
+        if not (isinstance(dv, ast.Call) and call_name(dv) in ('model_validate', 'validate_python') and dv.args and U(dv.args[0]) == raw):
+            return False
+        if call_name(dv) == 'model_validate':
+            return U(dv.func.value) == f'{self_}.result_type'
+        recv = dv.func.value
+        if isinstance(recv, ast.Call) and call_name(recv) == 'TypeAdapter' and len(recv.args) == 1 and not recv.keywords:
+            return U(recv.args[0]) == f'{self_}.result_type'  # TypeAdapter(self.result_type).validate_python(raw), written in one expression
+        if isinstance(recv, ast.Call) and len(recv.args) == 1 and not recv.keywords:
+            fu = c.an.fm.resolve_call(recv, u)
+            if isinstance(fu, Unit) and _adapter_factory_param(c, fu) is not None:
+                return U(recv.args[0]) == f'{self_}.result_type'  # <adapter factory>(self.result_type).validate_python(raw)
+        return _adapter_types(c, u, U(recv)) == {f'{self_}.result_type'}
+
+    def valid_expr(e: ast.AST) -> bool:
+        e = strip_cast(e)
+        if isinstance(e, ast.IfExp):
+            return valid_expr(e.body) and valid_expr(e.orelse)
+        return valid_call(e)
+
     for w in ws:
         v = strip_cast(w.node.value)
         st = q.stmt_of(w.node)
@@ -110,6 +212,9 @@ def c12_1(c: Ctx) -> None:
                 c.ok(where(u, st), f'self.result <- {v.id} (returned by validation of `{raw}` against self.result_type)')
             else:
                 c.fail(u, f'self.result <- {v.id}, which is not always the validated value', 'a value that did not pass validation can be stored as a typed result', node=st)
+        elif valid_expr(v):
+            n_valid += 1
+            c.ok(where(u, st), f'self.result <- {U(v)[:70]} (the value returned by validation of `{raw}` against self.result_type, on either arm)')
         elif isinstance(v, ast.Constant) and v.value is None:
             c.ok(where(u, st), 'self.result <- None')
         elif isinstance(v, ast.Name) and v.id == raw:
@@ -376,8 +481,12 @@ def c12_3(c: Ctx) -> None:
             c.ok(where(u), f'{name}: mutates only containers it created itself')
         idx = [n for n in own_nodes(u.node) if isinstance(n, ast.Subscript) and isinstance(n.slice, ast.Constant) and isinstance(n.slice.value, int)]
         if name == 'event_result':
+            firsts = [n for n in own_nodes(u.node) if isinstance(n, ast.Call) and isinstance(n.func, ast.Name) and n.func.id == 'next' and n.args and isinstance(n.args[0], ast.Call)
+                      and isinstance(n.args[0].func, ast.Name) and n.args[0].func.id == 'iter' and len(n.args[0].args) == 1 and not n.keywords]
             if idx and all(n.slice.value == 0 for n in idx):
                 c.ok(where(u, idx[0]), 'event_result returns the first included result')
+            elif not idx and len(firsts) == 1 and isinstance(firsts[0].args[0].args[0], ast.Call) and call_name(firsts[0].args[0].args[0]) == 'values' and U(firsts[0].args[0].args[0].func.value) in views:
+                c.ok(where(u, firsts[0]), 'event_result returns the first included result (next(iter(<results>.values()), ..): insertion order is handler order)')
             else:
                 c.fail(u, f'event_result indexes {[U(n)[:30] for n in idx]}', 'event_result does not return the first result in handler order')
         d = {a.arg: dv for a, dv in zip(u.node.args.args[-len(u.node.args.defaults):], u.node.args.defaults)} if u.node.args.defaults else {}
